@@ -33,8 +33,10 @@ Numbers == <<Num("0", 0), Num("7", 7000000), Num("42", 42000000), Num("017", 150
              Num("0xffUL", 255000000), Num("0b101", 5000000), Num("1.5e-3", 1500), Num(".5f", 500000), NumSep("1'000", "1000", 1000000000),
              Num("3u", 3000000), Num("10l", 10000000), Num("2.5", 2500000), Num("1e3", 1000000000), Num("1.", 1000000), Num("0.25L", 250000),
              Num("12ull", 12000000), Num("6.02E+2", 602000000), Num("0xA", 10000000), Num("0b1", 1000000), Num("08.5", 8500000)>>
-Strings == <<Str("\"s\""), Str("\"a b\""), Str("\"q\\\"r\""), Str("\"\""), Str("\"//x\""), Str("\"/*\""), Str("\"'\""), Str("\"#\"")>>
-Chars == <<Chr("'c'"), Chr("'\\n'"), Chr("'\\''"), Chr("'\"'"), Chr("'/'")>>
+Strings == <<Str("\"s\""), Str("\"a b\""), Str("\"q\\\"r\""), Str("\"\""), Str("\"//x\""), Str("\"/*\""), Str("\"'\""), Str("\"#\""),
+             \* a closing quote preceded by an even number of backslashes is not escaped
+             Str("\"a\\\\\""), Str("\"\\\\\""), Str("\"\\\\\\\"\"")>>
+Chars == <<Chr("'c'"), Chr("'\\n'"), Chr("'\\''"), Chr("'\"'"), Chr("'/'"), Chr("'\\\\'")>>
 Puncts == <<Punct(";"), Punct(","), Punct("("), Punct(")"), Punct("{"), Punct("}"), Punct("["), Punct("]")>>
 Ops == <<Op("+"), Op("-"), Op("*"), Op("/"), Op("%"), Op("="), Op("<"), Op(">"), Op("!"), Op("&"), Op("|"), Op("^"), Op("?"), Op(":"), Op("."),
          Op("=="), Op("!="), Op("<="), Op(">="), Op("<<"), Op(">>"), Op("::"), Op("++"), Op("--"), Op("->"), Op("->*"), Op(".*"),
